@@ -45,7 +45,7 @@ def build(chk, salt):
     corp = Corpus(chk)
     r = common.rng(salt)
     if chk.quick:
-        triples = corp.triples(n_enum=520, n_random=160, salt=salt)
+        triples = corp.triples(n_enum=600, n_random=160, salt=salt)
         r.shuffle(triples)
         tasks = make_tasks(triples, 14, r)
     else:
